@@ -513,6 +513,13 @@ def main(module, argv=None):
             confirmations = list(ex.map(confirm, todo[:cap]))
         for (d, vio), r in zip(todo[:cap], confirmations):
             if r["status"] == "ok":
+                try:        # keep the case: an intermittent stall can only be studied with the input at hand
+                    with open(os.path.join(replay_dir, "%s-once-%s.json" % (prop, digest(d["case"])[:10])), "w") as f:
+                        json.dump({"property": prop, "kind": "stalled-once" if d["status"] == "timeout" else "died-once",
+                                   "detail": {"rc": d["rc"], "report": d["log"][:2000]}, "case": d["case"],
+                                   "variant": d["variant"], "seed": seed, "tier": tier}, f)
+                except OSError:
+                    pass
                 if d["status"] == "timeout":
                     inconclusive.append("watchdog fired once but the case returns when run alone: %s" % canon(d["case"])[:300])
                 else:
